@@ -267,7 +267,7 @@ def tour(nodes, edges, init, max_len=400):
 # ------------------------------------------------------------------------------------------------
 # B1: replay of the tour through the point scheduler
 # ------------------------------------------------------------------------------------------------
-RESULT_TYPES = ["u8", "vec", "dv", "z", "u128", "arr", "a64"]
+RESULT_TYPES = ["u8", "vec", "dv", "zd", "z", "a64d", "u128", "arr", "arrd", "a64"]
 
 
 def ops_string(prog, fin, ty):
